@@ -109,3 +109,9 @@ Example retry_ex :
   send_model [ARetryable] (Some 0) SendNoMoreRetries 0 = (SendNoMoreRetries, 1) /\
   outcome_of_send (fst (send_model [ARetryable; ARetryable] (Some 2) SendCtxDone 0)) = OShutdown.
 Proof. vm_compute. repeat split; reflexivity. Qed.
+
+(* a hand-off in three pieces: refused, ok, interrupted by shutdown (in any completion order) is "interrupted" *)
+Example split_ex :
+  combine_outcomes [OFailed; OOk; OShutdown] = OShutdown /\ combine_outcomes [OShutdown; OFailed; OOk] = OShutdown /\
+  combine_outcomes [OFailed; OOk] = OFailed /\ combine_outcomes [OOk; OOk] = OOk.
+Proof. vm_compute. repeat split; reflexivity. Qed.
